@@ -22,7 +22,7 @@ ASSUMPTIONS = [
     "under int, subclasses of the declared built-in type, datetime under date, float tolerance band, NaN",
     "regex semantics are re.search of CPython",
 ]
-BUDGET = {"quick": (1500, 4), "thorough": (30000, 16)}
+BUDGET = {"quick": (1500, 4), "thorough": (20000, 16)}
 
 
 @st.composite
